@@ -104,7 +104,7 @@ func VerifC04_q_prefixSiblings() { vpPrefixSiblings("C04") }
 // ASSUME: C04: same scenario as VerifC01_q_reloadKeepsOwnership, checked under C04
 func VerifC04_q_reloadKeepsOwnership() { vpReloadKeepsOwnership("C04") }
 
-// BOUND: topology 0 with all but one address held by other pods; a statefulset pod (symbolic policy) bound and running; a standby instance of galaxy-ipam has an informer cache that stops following at that point; the pod is deleted, its event handled, the same-named pod re-created, bound by the active instance and running; then the standby takes over (new plugin, tables rebuilt from the shared store, but its lagging informer cache: it still holds the first incarnation) and runs one resync pass (and the pod-IP sync pass) before its cache catches up, then another one afterwards. The live pod keeps its IP throughout (the stale cache's answer has to be confirmed with the API server)
+// BOUND: topology 0 with all but one address held by other pods; a statefulset pod (symbolic policy) bound and running; a standby instance of galaxy-ipam has an informer cache that stops following at that point; the pod is deleted, its event handled, the same-named pod re-created, bound by the active instance and running; then the standby takes over (new plugin, tables rebuilt from the shared store, but its lagging informer cache: it still holds the first incarnation) and runs one resync pass (and the pod-IP sync pass) before its cache catches up, then another one afterwards. The live pod keeps its IP throughout (the stale cache's answer has to be confirmed with the API server; one of the pass's pod GETs may fail at a symbolic position, answered as the real typed client does: an empty object plus the error)
 // ASSUME: C04: a standby's informer cache may lag arbitrarily behind the API server but never shows objects that never existed
 func VerifC04_q_failoverStaleCache() { vpFailoverStaleCache("C04") }
 
@@ -156,7 +156,12 @@ func vpFailoverStaleCache(prop string) {
 	}
 	w.lPods = stale
 	verifReach("standby-took-over")
+	// the API server may fail to answer one of the pass's pod GETs (the confirmation of the stale cache's answer);
+	// like the real typed client the stub then returns an empty object together with the error
+	w.faultKinds = map[string]bool{"pods.get": true}
+	w.calls, w.faultAt = 0, nondetInt(0, 2)
 	w.resync()
+	w.faultAt, w.faultKinds = 0, nil
 	w.checkAll(prop, "a resync pass of a standby whose informer cache still holds the former incarnation")
 	w.syncListers()
 	w.resync()
